@@ -264,10 +264,12 @@ mixed2('C13', [('contracts.pda', k) for k in ('fn.get_next_free[State]', 'fn.get
 mixed2('C14', [('contracts.llone', k) for k in ('LLOneParser._get_first_set_production', 'LLOneParser._get_triggers', 'LLOneParser._get_triggers_follow_set')]
        + [('contracts.llone_table', 'LLOneParser.get_llone_parsing_table'), ('contracts.llone_table', 'LLOneParser.is_llone_parsable'),
           ('contracts.llone_first', 'LLOneParser._initialize_first_set'), ('contracts.llone_first', 'LLOneParser.get_first_set'),
+          ('contracts.llone_follow', 'LLOneParser._initialize_follow_set'), ('contracts.llone_follow', 'LLOneParser.get_follow_set'),
           ('contracts.setqueue', 'SetQueueRep.append'), ('contracts.setqueue', 'SetQueueRep.pop'), ('contracts.setqueue', 'SetQueueRep.__bool__')], [],
-       'Deductive for get_first_set: it returns exactly the least table FT with t in FT[t] for terminals, epsilon in FT[A] for A -> (empty) and FIRST-of-a-sequence(FT, alpha) inside FT[A] for A -> alpha - the textbook FIRST sets - for every grammar whose terminals are not heads and every order of the work list (SetQueue proved against its set view; the cardinality test after a union is read through |S| with the fact that a subset of the same cardinality is the same set). Deductive for the parsing table and the verdict, relative to the FIRST / FOLLOW tables: table[A][a] lists exactly the productions A -> alpha with a in PREDICT(A -> alpha) (FIRST of alpha, plus FOLLOW(A) without epsilon when every symbol of alpha is nullable), each once, and is_llone_parsable() is True exactly when no two productions of a variable share a predict symbol. Deductive for three helper functions of the LL(1) construction: _get_first_set_production is FIRST of a sequence relative to a table of FIRST sets (union of the entries of the symbols whose predecessors are all nullable in the table, epsilon kept exactly when every symbol is nullable) - the function both the fixpoint and the parsing table are built from; _get_triggers maps a symbol to exactly the heads of the productions containing it; _get_triggers_follow_set relates head -> component exactly when everything after the component is nullable in the table. For every production, table and grammar.',
+       'Deductive for get_first_set: it returns exactly the least table FT with t in FT[t] for terminals, epsilon in FT[A] for A -> (empty) and FIRST-of-a-sequence(FT, alpha) inside FT[A] for A -> alpha - the textbook FIRST sets - for every grammar whose terminals are not heads and every order of the work list (SetQueue proved against its set view; the cardinality test after a union is read through |S| with the fact that a subset of the same cardinality is the same set). Deductive for get_follow_set (with _initialize_follow_set): it returns exactly the least table FW with $ in FW[S], FIRST-of-the-rest minus epsilon inside FW[X_i] for every position of every body, and FW[A] inside FW[X_i] when everything after X_i is nullable - the textbook FOLLOW sets, relative to the FIRST table. Deductive for the parsing table and the verdict, for these tables: table[A][a] lists exactly the productions A -> alpha with a in PREDICT(A -> alpha) (FIRST of alpha, plus FOLLOW(A) without epsilon when every symbol of alpha is nullable), each once, and is_llone_parsable() is True exactly when no two productions of a variable share a predict symbol. Deductive for three helper functions of the LL(1) construction: _get_first_set_production is FIRST of a sequence relative to a table of FIRST sets (union of the entries of the symbols whose predecessors are all nullable in the table, epsilon kept exactly when every symbol is nullable) - the function both the fixpoint and the parsing table are built from; _get_triggers maps a symbol to exactly the heads of the productions containing it; _get_triggers_follow_set relates head -> component exactly when everything after the component is nullable in the table. For every production, table and grammar.',
        'contract-based deductive verification (pyvc + z3) of the per-production helper functions; bounded run-time contract checking (textbook least fixpoints, predict sets, tree validation) for the fixpoint loops, the table, the verdict and the parser',
-       ['get_follow_set / _initialize_follow_set and get_llone_parse_tree are not under contract: the table and the verdict are proved for whatever FOLLOW table the fixpoint returns; that it is the textbook FOLLOW is only covered by the bounded comparison',
+       ['get_llone_parse_tree (the stack parser) is not under contract: for LL(1) grammars "a tree exactly for the members, NotParsableException otherwise" is only covered by the bounded stand-in',
+        'get_follow_set: "$" is one more symbol value; the start symbol is not an epsilon object; induction principle of the least table (one instance)',
         'get_first_set: induction principle of the least table (one instance), |S| uninterpreted with "subset of equal cardinality is equal" (finite sets), termination not verified',
         'all cfg.Epsilon() objects are one value (Terminal.__eq__ compares values); a theory lemma about the element of a suffix s[lo:] is stated as an axiom'])
 
